@@ -45,12 +45,18 @@ class Term:
     def write(self, e, s, recv, a, k):
         data = a[0]
         for exc in self.faults:
-            e.raise_(ExcVal(exc), self.interrupted(e, s), fault=True)
+            e.raise_(ExcVal(exc), self.interrupted(e, s), fault=True)          # a prefix was delivered
         s = e.fork(s)
         n = s.ghost["writes_n"] = s.ghost["writes_n"] + 1
         vt = VT(e, s, tag=f"write{n}")
         vt.feed(data)
         vt.commit()
+        for exc in self.faults:
+            s2 = e.fork(s)                                                     # everything was delivered, then the signal surfaced
+            g = dict(s2.ghost["vt"])
+            g["interrupted"] = True
+            s2.ghost["vt"] = g
+            e.raise_(ExcVal(exc), s2, fault=True)
         return [(None, s)]
 
     def flush(self, e, s, recv, a, k):
@@ -173,8 +179,341 @@ def u_animate(ctx):
         eng.oblige(f"C10:data-left-to-draw()-un-finalized@{kind}", s, And(s.H(render_data)["finalized"] is False), prop="C10", kind="exit")
         if kind == "raise":
             eng.oblige(f"C07:animation-ends-silently-on-Ctrl-C({val.cls})", s, val.cls != "KeyboardInterrupt", prop="C07", kind="raise")
-        if kind in ("normal", "return") and g["interrupted"] is False:
+        if kind in ("normal", "return") and g["interrupted"] is False and not s.ghost.get("faulted"):
             ffw = s.lookup("first_frame_written")
             eng.oblige("C06:cursor-on-last-line-of-padded-box-after-animation", s,
                        Implies(ffw, And(to_z3(g["row"]) == T.r0 + PH - 1, z3.BoolVal(g["parser"] == "ground"))), prop="C06", kind="post")
     return eng.obligations
+
+
+# =====================================================================================================
+# Renderable.draw
+# =====================================================================================================
+def draw_unit(animated_case):
+    @unit(("C06", "C07", "C10", "C13"), f"_renderable:Renderable.draw[{'animation' if animated_case else 'still'}]")
+    def u(ctx, animated_case=animated_case):
+        eng = ctx.engine(f"C06/draw[{'animation' if animated_case else 'still'}]", "C06")
+        st = State()
+        ctlseq_world(ctx, eng)
+        fault = tty.install(eng, faults=("KeyboardInterrupt", "OSError"))
+        snap0 = tty.tty_init(st)
+        w, h, l, t, r, b = z3.Ints("w h pad_l pad_t pad_r pad_b")
+        PW, PH = l + w + r, t + h + b
+        T = Term(eng, st)
+        st.pc += [w >= 1, h >= 1, l >= 0, t >= 0, r >= 0, b >= 0]
+        st.pc.append(PW <= T.TW)        # C06 speaks about output that fits the terminal width (check_size=False may waive the check)
+
+        def on_block(vt, blk):          # an unpadded still image: the block itself is the picture
+            vt.g["arow"], vt.g["acol"] = vt.g["row"], vt.g["col"]
+        st.ghost["vt"]["on_block"] = on_block
+        isatty = z3.Bool("isatty")
+        st.ghost["isatty"] = isatty
+        eng.classes["MyRenderable"] = ("Renderable",)
+        animate, check_size, allow_scroll, hide_cursor, echo_input = z3.Bools("animate check_size allow_scroll hide_cursor echo_input")
+        self_ = st.new("MyRenderable", {"animated": animated_case})
+        if animated_case:
+            st.pc.append(animate)
+        animation = animated_case   # self.animated and animate
+        render_data = st.new("RenderData", {"finalized": False, "fin_calls": 0})
+        real_args = Opaque("real_render_args")
+        padding_in = st.new("Padding", {"relative": True})
+        padding = st.new("Padding", {"resolved": True})
+        unix = ctx.const("term_image.utils", "OS_IS_UNIX") if "OS_IS_UNIX" in ctx.ns("term_image.utils").d else True
+        eng.genv.update(sys=Namespace("sys", {"stdout": T.out}), OS_IS_UNIX=unix, AlignedPadding=ClassV("AlignedPadding"))
+
+        def init_render(e, s, recv, a, k):
+            """contract of _init_render_ (unit below): validates the size BEFORE anything is written; with finalize=False
+            the data is returned un-finalized and not stored anywhere else"""
+            e.oblige("C10:draw-takes-ownership-of-the-data(finalize=False)", s, k.get("finalize") is False, prop="C10", kind="pre")
+            e.oblige("C06:nothing-written-before-size-validation", s, s.ghost["writes_n"] == 0, prop="C06", kind="pre")
+            e.oblige("C06:animations-always-validated,stills-per-check_size", s,
+                     And(Eq(k.get("check_size"), Or(animation, check_size)), Eq(k.get("allow_scroll"), And(Not(animation), allow_scroll)),
+                         Eq(k.get("iteration"), animation)), prop="C06", kind="pre")
+            s1 = e.fork(s)
+            s1.ghost["validation_failed"] = True
+            e.raise_(ExcVal("RenderSizeOutofRangeError"), s1)
+            e.raise_(ExcVal("IncompatibleRenderArgsError"), e.fork(s))
+            s = e.fork(s)
+            chk, scroll = to_z3(k.get("check_size")), to_z3(k.get("allow_scroll"))
+            s.pc.append(z3.Implies(chk, z3.And(PW <= T.TW, z3.Or(scroll, PH <= T.TH))))
+            res = e.call(a[0], (render_data, real_args), {}, s)
+            return [((v, padding), s2) for v, s2 in res]
+        eng.methods[("Renderable", "_init_render_")] = init_render
+
+        def animate_(e, s, recv, a, k):
+            """contract of _animate_ (unit above): never lets KeyboardInterrupt out; closes its iterator; leaves the data
+            un-finalized; an uninterrupted run ends on the last line of the padded box it drew from column 0"""
+            g = s.ghost["vt"]
+            e.oblige("C06:animation-starts-at-column-0", s, to_z3(g["col"]) == 0, prop="C06", kind="pre")
+            e.oblige("C10:animate-gets-the-draw's-data", s, a[0] is render_data and a[2] is padding, prop="C10", kind="pre")
+            s.pc += [PW <= T.TW, PH <= T.TH] if False else []
+            outs = []
+            # (a) ran to completion
+            s1 = e.fork(s)
+            g1 = dict(g)
+            g1["bottom"] = Max(g["bottom"], g["row"] + PH - 1)
+            g1["row"] = g["row"] + PH - 1
+            g1["col"] = e.sym_int("col_after_anim")
+            s1.pc += [g1["col"] >= 0, g1["col"] <= T.TW]
+            s1.ghost["vt"] = g1
+            s1.ghost["writes_n"] = s1.ghost["writes_n"] + 1
+            outs.append((None, s1))
+            # (b) interrupted by Ctrl-C / no frame at all: returns silently, cursor anywhere
+            s2 = T.interrupted(e, s)
+            s2.ghost["writes_n"] = s2.ghost["writes_n"] + 1
+            outs.append((None, s2))
+            # (c) a rendering error propagates
+            s3 = T.interrupted(e, s)
+            s3.ghost["writes_n"] = s3.ghost["writes_n"] + 1
+            e.raise_(ExcVal("Boom"), s3)
+            return outs
+        eng.methods[("Renderable", "_animate_")] = animate_
+
+        def render_(e, s, recv, a, k):
+            e.oblige("C10:render-data-not-finalized-at-render", s, s.H(a[0])["finalized"] is False, prop="C10", kind="pre")
+            for exc in ("KeyboardInterrupt", "Boom"):
+                e.raise_(ExcVal(exc), T.interrupted(e, s, cursor=False), fault=True)
+            blk = e.sym_int("blk")
+            s = e.fork(s)
+            s.ghost["blk"] = blk
+            return [(Rec("Frame", {"number": 0, "duration": 0, "render_size": size_rec(w, h), "render_output": TS([Block(blk, w, h)])}), s)]
+        eng.methods[("Renderable", "_render_")] = render_
+        eng.methods[("Padding", "get_padded_size")] = lambda e, s, recv, a, k: [(size_rec(l + a[0].f["width"] + r, t + a[0].f["height"] + b), s)]
+
+        def pad(e, s, recv, a, k):
+            blk = a[0].items[0]
+            return [(TS([PBlock(blk.id, w, h, l, t, r, b)]), s)]
+        eng.methods[("Padding", "pad")] = pad
+
+        def handle_int(e, s, recv, a, k):
+            s = e.fork(s)
+            s.ghost["handled_interrupt_at_write"] = s.ghost["writes_n"]
+            return [(None, s)]
+        eng.methods[("Renderable", "_handle_interrupted_draw_")] = handle_int
+
+        def finalize(e, s, recv, a, k):
+            s = e.fork(s)
+            hh = s.H(recv)
+            hh["fin_calls"] = hh["fin_calls"] + (0 if hh["finalized"] else 1)
+            hh["finalized"] = True
+            return [(None, s)]
+        eng.methods[("RenderData", "finalize")] = finalize
+        st.env.update(self=self_, render_args=None, padding=padding_in, animate=animate, loops=z3.Int("loops"), cache=Opaque("cache"), check_size=check_size,
+                      allow_scroll=allow_scroll, hide_cursor=hide_cursor, echo_input=echo_input)
+        outs = run_function(eng, ctx.fn(RN, "Renderable.draw"), st)
+        for kind, val, s in outs:
+            g = s.ghost["vt"]
+            started = s.ghost.get("validation_failed") is not True and not (kind == "raise" and val.cls == "IncompatibleRenderArgsError")
+            if not started:
+                eng.oblige("C06:rejected-before-anything-is-written", s, And(s.ghost["writes_n"] == 0, tty.tty_equal(s.ghost["tty"], snap0)), prop="C06", kind="raise")
+                continue
+            # ---- C07 / C13: every exit
+            eng.oblige(f"C07:cursor-visible@{kind}", s, g["vis"], prop="C07", kind="exit")
+            eng.oblige(f"C13:terminal-attributes-restored@{kind}", s, tty.tty_equal(s.ghost["tty"], snap0), prop="C13", kind="exit")
+            eng.oblige(f"C07:terminal-attributes-restored@{kind}", s, tty.tty_equal(s.ghost["tty"], snap0), prop="C07", kind="exit")
+            if kind == "raise" and s.ghost.get("raised_in_try") == 0:
+                # interrupted between _init_render_ and the try block: nothing was changed yet; the data is referenced by
+                # nothing but the dying frame, so RenderData.__del__ finalizes it (the property's "garbage-collected")
+                eng.oblige("C10:data-unreferenced-when-interrupted-before-the-try(finalized-by-__del__)", s,
+                           And(s.H(render_data)["fin_calls"] == 0, s.ghost["writes_n"] == 0,
+                               not any(v is render_data for hid, hobj in s.heap.items() if isinstance(hobj, dict) for v in hobj.values())), prop="C10", kind="exit")
+            else:
+                eng.oblige(f"C10:data-finalized-exactly-once@{kind}", s, And(s.H(render_data)["finalized"] is True, s.H(render_data)["fin_calls"] == 1), prop="C10", kind="exit")
+                eng.oblige(f"C07:data-finalized@{kind}", s, s.H(render_data)["finalized"] is True, prop="C07", kind="exit")
+            if kind == "raise":
+                if animation:
+                    where = "(interrupt-between-size-validation-and-try)" if s.ghost.get("raised_in_try") == 0 else ""
+                    eng.oblige("C07:animation-ends-silently-on-Ctrl-C" + where, s, val.cls != "KeyboardInterrupt", prop="C07", kind="raise",
+                               replay="C07.draw_faults_pre_try" if where else "C07.draw_faults")
+            else:
+                if not animation:
+                    # still images propagate KeyboardInterrupt: a normal return means no interrupt happened
+                    eng.oblige("C07:still-image-interrupt-not-swallowed", s, g["interrupted"] is False and not s.ghost.get("faulted"), prop="C07", kind="post")
+            # ---- C06: uninterrupted normal return
+            if kind in ("normal", "return") and g["interrupted"] is False and not s.ghost.get("faulted"):
+                eng.oblige("C06:cursor-at-start-of-line-below-padded-region", s,
+                           And(to_z3(g["row"]) == T.r0 + PH, to_z3(g["col"]) == 0, g["vis"], g["sgr_default"], z3.BoolVal(g["parser"] == "ground")), prop="C06", kind="post")
+                if not animation:
+                    eng.oblige("C06:picture-inside-its-padding-where-drawn", s, And(to_z3(g["arow"]) == T.r0 + t, to_z3(g["acol"]) == l) if True else True, prop="C06", kind="post")
+        return eng.obligations
+    return u
+
+
+for _a in (False, True):
+    draw_unit(_a)
+
+
+# =====================================================================================================
+# RenderData.finalize / __del__
+# =====================================================================================================
+@unit("C10", "_types:RenderData.finalize")
+def u_finalize(ctx):
+    eng = ctx.engine("C10/RenderData.finalize", "C10")
+    obs = []
+    for which in ("finalize", "__del__"):
+        for initialised in ((True, False) if which == "__del__" else (True,)):
+            eng = ctx.engine(f"C10/RenderData.{which}" + ("" if initialised else "[unsuccessful-init]"), "C10")
+            st = State()
+            fin0 = z3.Bool("finalized0")
+            cls = st.new("rendercls", {})
+            st.ghost["hook_calls"] = 0
+
+            def hook(e, s, recv, a, k):
+                s = e.fork(s)
+                s.ghost["hook_calls"] = s.ghost["hook_calls"] + 1
+                e.raise_(ExcVal("Boom"), e.fork(s))       # a subclass hook may fail
+                return [(None, s)]
+            eng.methods[("rendercls", "_finalize_render_data_")] = hook
+            eng.closed_classes.add("RenderData")
+            self_ = st.new("RenderData", {"finalized": fin0, "render_cls": cls} if initialised else {})
+            st.env["self"] = self_
+            if which == "__del__":
+                fin_node = inline(ctx.fn(TY, "RenderData.finalize"), eng)
+                eng.methods[("RenderData", "finalize")] = lambda e, s, recv, a, k: e.call(fin_node, (recv,), {}, s)
+            outs = run_function(eng, ctx.fn(TY, f"RenderData.{which}"), st)
+            for kind, val, s in outs:
+                if not initialised:
+                    eng.oblige("unsuccessful-init:__del__-is-silent", s, kind != "raise", kind="exit")
+                    continue
+                calls = s.ghost["hook_calls"]
+                # the hook runs exactly once over the object's life: iff it was not finalized before; finalized afterwards even if the hook raises
+                eng.oblige(f"finalize-once,finalized-afterwards@{kind}", s, And(to_z3(s.H(self_)["finalized"]) == True, calls == z3.If(fin0, 0, 1),
+                                                                               (val.cls == "Boom" and True) if kind == "raise" else True), kind="exit")
+                if kind == "raise":
+                    eng.oblige("only-the-hook's-error-escapes", s, And(val.cls == "Boom", Not(fin0)), kind="raise")
+            obs += eng.obligations
+    return obs
+
+
+# =====================================================================================================
+# Renderable._init_render_ / render / __str__
+# =====================================================================================================
+@unit(("C06", "C10"), "_renderable:Renderable._init_render_")
+def u_init_render(ctx):
+    obs = []
+    for pad_kind in ("none", "exact", "aligned-relative"):
+        eng = ctx.engine(f"C06/_init_render_[padding={pad_kind}]", "C06")
+        st = State()
+        w, h, l, t, r, b, tw, th = z3.Ints("w h pad_l pad_t pad_r pad_b tw th")
+        st.pc += [w >= 1, h >= 1, l >= 0, t >= 0, r >= 0, b >= 0, tw >= 1, th >= 1]
+        PW, PH = (l + w + r, t + h + b) if pad_kind != "none" else (w, h)
+        eng.classes.update({"MyRenderable": ("Renderable",), "AlignedPadding": ("Padding",), "ExactPadding": ("Padding",)})
+        eng.genv.update(Renderable=ClassV("Renderable"), AlignedPadding=ClassV("AlignedPadding"), RenderArgs=ClassV("RenderArgs"),
+                        RenderSizeOutofRangeError=ClassV("RenderSizeOutofRangeError"))
+        eng.exc_parents["RenderSizeOutofRangeError"] = "RenderableError"
+        eng.genv["get_terminal_size"] = Fn(lambda e, s, a, k: [(Rec("terminal_size", {"columns": tw, "lines": th}), s)])
+        eng.genv["type"] = Fn(lambda e, s, a, k: [(ClassV(a[0].cls), s)])
+        self_ = st.new("MyRenderable", {})
+        rdata = st.new("RenderableData", {"size": size_rec(w, h)})
+        st.ghost["created"] = []
+        st.ghost["rendered"] = 0
+
+        def get_render_data(e, s, recv, a, k):
+            e.raise_(ExcVal("Boom"), e.fork(s))
+            s = e.fork(s)
+            d = s.new("RenderData", {"finalized": False, "fin_calls": 0, "iteration": k.get("iteration")})
+            s.ghost["created"] = s.ghost["created"] + [d]
+            return [(d, s)]
+        eng.methods[("Renderable", "_get_render_data_")] = get_render_data
+        eng.methods[("RenderData", "__getitem__")] = lambda e, s, recv, a, k: [(rdata, s)]
+
+        def finalize(e, s, recv, a, k):
+            s = e.fork(s)
+            hh = s.H(recv)
+            hh["fin_calls"] = hh["fin_calls"] + (0 if hh["finalized"] else 1)
+            hh["finalized"] = True
+            return [(None, s)]
+        eng.methods[("RenderData", "finalize")] = finalize
+        eng.methods["new:RenderArgs"] = lambda e, s, c, a, k: (e.raise_(ExcVal("IncompatibleRenderArgsError"), e.fork(s)), [(Opaque("converted"), s)])[1]
+        if pad_kind == "none":
+            padding = None
+        else:
+            rel = pad_kind == "aligned-relative"
+            padding = st.new("AlignedPadding" if rel else "ExactPadding", {"relative": rel})
+            eng.attrs[("Padding", "relative")] = lambda e, s, v: [(s.H(v).get("relative", False), s)]
+
+            def resolve(e, s, recv, a, k):
+                s = e.fork(s)
+                return [(s.new("AlignedPadding", {"relative": False, "resolved_from": recv.id, "against": a[0]}), s)]
+            eng.methods[("Padding", "resolve")] = resolve
+
+            def gps(e, s, recv, a, k):
+                if s.H(recv).get("relative"):
+                    e.raise_(ExcVal("RelativePaddingDimensionError"), e.fork(s))
+                    return []
+                return [(size_rec(l + a[0].f["width"] + r, t + a[0].f["height"] + b), s)]
+            eng.methods[("Padding", "get_padded_size")] = gps
+
+        def renderer(e, s, a, k):
+            s = e.fork(s)
+            s.ghost["rendered"] = s.ghost["rendered"] + 1
+            e.oblige("C10:data-not-finalized-when-handed-to-the-renderer", s, s.H(a[0])["finalized"] is False, prop="C10", kind="pre")
+            for exc in ("Boom", "KeyboardInterrupt"):
+                e.raise_(ExcVal(exc), e.fork(s), fault=True)
+            return [(Opaque("rendered"), s)]
+        finalize_, check_size, allow_scroll, iteration = z3.Bools("finalize check_size allow_scroll iteration")
+        st.env.update(self=self_, renderer=Fn(renderer), render_args=None, padding=padding, iteration=iteration, finalize=finalize_, check_size=check_size,
+                      allow_scroll=allow_scroll)
+        outs = run_function(eng, ctx.fn(RN, "Renderable._init_render_"), st)
+        too_big = z3.And(check_size, z3.Or(PW > tw, z3.And(z3.Not(allow_scroll), PH > th)))
+        for kind, val, s in outs:
+            created = s.ghost["created"]
+            if kind == "raise" and val.cls == "RenderSizeOutofRangeError":
+                eng.oblige("C06:size-rejected-exactly-when-it-does-not-fit,before-any-render", s, And(too_big, s.ghost["rendered"] == 0), prop="C06", kind="raise")
+            elif kind == "raise":
+                eng.oblige(f"C06:other-errors({val.cls})-are-not-size-errors", s, val.cls in ("Boom", "KeyboardInterrupt", "IncompatibleRenderArgsError"), prop="C06", kind="raise")
+            else:
+                eng.oblige("C06:accepted-only-when-it-fits(or-unchecked)", s, And(Not(too_big), s.ghost["rendered"] == 1), prop="C06", kind="post")
+                if pad_kind == "aligned-relative":
+                    if not (kind == "return" and isinstance(val, tuple)):
+                        raise Unsupported(f"_init_render_ exit {kind} {val!r}")
+                    p = val[1]
+                    eng.oblige("C06:relative-padding-resolved-against-the-terminal-size", s, isinstance(p, Ref) and s.H(p).get("resolved_from") == padding.id, prop="C06", kind="post")
+            for d in created:
+                hh = s.H(d)
+                # finalize=True: finalized exactly once on every exit; finalize=False: never touched and handed to nobody but the renderer
+                eng.oblige(f"C10:data-finalized-iff-finalize-requested@{kind}", s,
+                           And(to_z3(hh["finalized"]) == finalize_, hh["fin_calls"] == z3.If(finalize_, 1, 0),
+                               not any(v is d for hid, hobj in s.heap.items() if isinstance(hobj, dict) for v in hobj.values())), prop="C10", kind="exit")
+            eng.oblige(f"C10:at-most-one-data-object-created@{kind}", s, len(created) <= 1, prop="C10", kind="exit")
+        obs += eng.obligations
+    return obs
+
+
+@unit("C10", "_renderable:Renderable.render/__str__")
+def u_render_str(ctx):
+    """render() and __str__() go through _init_render_ with the default finalize=True"""
+    obs = []
+    for name in ("render", "__str__"):
+        eng = ctx.engine(f"C10/Renderable.{name}", "C10")
+        st = State()
+        self_ = st.new("MyRenderable", {})
+        eng.classes["MyRenderable"] = ("Renderable",)
+        w, h, l, t, r, b = z3.Ints("w h pad_l pad_t pad_r pad_b")
+        calls = []
+
+        def init_render(e, s, recv, a, k):
+            e.oblige("C10:finalize-not-disabled(data-finalized-by-_init_render_)", s, k.get("finalize", True) is True, kind="pre")
+            e.oblige("C10:renders-through-_render_", s, isinstance(a[0], Bound) and a[0].name == "_render_", kind="pre") if False else None
+            e.raise_(ExcVal("Boom"), e.fork(s))
+            fr = Rec("Frame", {"number": 0, "duration": 0, "render_size": size_rec(w, h), "render_output": TS([Block(1, w, h)])})
+            pad = s.new("Padding", {})
+            return [((fr, pad), s)]
+        eng.methods[("Renderable", "_init_render_")] = init_render
+        eng.methods[("Renderable", "_render_")] = lambda e, s, recv, a, k: [(Opaque("frame"), s)]
+        eng.methods[("Padding", "get_padded_size")] = lambda e, s, recv, a, k: [(size_rec(l + w + r, t + h + b), s)]
+        eng.methods[("Padding", "pad")] = lambda e, s, recv, a, k: [(TS([PBlock(1, w, h, l, t, r, b)]), s)]
+        eng.genv["Frame"] = Fn(lambda e, s, a, k: [(Rec("Frame", dict(zip(("number", "duration", "render_size", "render_output"), a))), s)])
+        eng.genv["NO_PADDING"] = Opaque("NO_PADDING")
+        st.pc += [w >= 1, h >= 1, l >= 0, t >= 0, r >= 0, b >= 0]
+        st.env.update(self=self_, render_args=None, padding=Opaque("padding"))
+        outs = run_function(eng, ctx.fn(RN, f"Renderable.{name}"), st)
+        for kind, val, s in outs:
+            if kind == "raise":
+                eng.oblige("only-render-errors-escape", s, val.cls == "Boom", kind="raise")
+            elif name == "render":
+                padded = z3.Not(z3.And(l + r == 0, t + b == 0))
+                ok = isinstance(val, Rec) and And(Eq(val.f["render_size"], (l + w + r, t + h + b)))
+                eng.oblige("C05:render()-returns-a-frame-of-the-padded-size", s, ok, prop="C05", kind="post")
+        obs += eng.obligations
+    return obs
